@@ -20,6 +20,8 @@ echo "== checks on a scratch copy of /repo with the patch applied (KVC_REPO; evi
 SCR=/var/tmp/kvcscratch/eval_$NAME; rm -rf $SCR; mkdir -p $SCR/repo $SCR/out; cp -r /repo/kingdon $SCR/repo/kingdon
 (cd $SCR/repo && patch -s -p1 < $OUT/patch.diff) || { echo "PATCH DOES NOT APPLY TO /repo"; rm -rf $SCR; exit 3; }
 cd /verif
+# a seed counts as detected only if the same check passes on the unchanged tree (same seed): run that first
+for p in $PROPS; do KVC_OUT=$SCR/out ./check $p --tier quick > $SCR/out/pristine_$p.log 2>&1; echo "pristine $p exit=$?"; done
 for p in $PROPS; do KVC_REPO=$SCR/repo KVC_OUT=$SCR/out ./check $p --tier quick > $OUT/check_$p.log 2>&1; echo "$p exit=$? $(grep -c VIOLATION $OUT/check_$p.log) violation line(s): $(grep -E 'VIOLATION' $OUT/check_$p.log | head -2 | cut -c1-160) | $(tail -1 $OUT/check_$p.log | cut -c1-200)"; done
 rm -rf $SCR
 echo "demo_with=$DW demo_without=$DO"
